@@ -17,6 +17,7 @@
 (*              "noop"]  apply handlers ("noop": ApplyChange returns an      *)
 (*              empty, non-nil revert map)                                   *)
 (*   nl        number of listeners on the resource pattern                   *)
+(*   pubfail   the connection refuses to publish resource events             *)
 (*   script    what the invoked handler does: a sequence of step names       *)
 (*                                                                         *)
 (* Invoked(sc) names the handler kind: "access" | "get" | "new" | "call" (the   *)
@@ -74,7 +75,15 @@ Emit(sc, st, ev, ap) ==
     LET s1 == IF ap = "absent" THEN st ELSE [st EXCEPT !.log = Append(@, <<"apply", ev, st.k>>)] IN
     IF ap = "fail" THEN Panic(s1, "other")
     ELSE IF ap = "noop" THEN s1
+    ELSE IF sc.pubfail THEN Notify(s1, ev, 1, sc.nl)      \* the connection refused the message: logged, listeners still told
     ELSE LET s2 == [Publish(s1, "event", ev) EXCEPT !.log = Append(@, <<"pub", ev, st.k>>)] IN Notify(s2, ev, 1, sc.nl)
+
+\* the same when the message cannot be handed to the connection (marshal or publish failure)
+EmitUnpublished(sc, st, ev, ap) ==
+    LET s1 == IF ap = "absent" THEN st ELSE [st EXCEPT !.log = Append(@, <<"apply", ev, st.k>>)] IN
+    IF ap = "fail" THEN Panic(s1, "other")
+    ELSE IF ap = "noop" THEN s1
+    ELSE Notify(s1, ev, 1, sc.nl)
 
 ReservedEvents == {"change", "delete", "add", "remove", "patch", "reaccess", "unsubscribe", "query"}
 
@@ -106,8 +115,12 @@ Do(sc, st0, a) ==
          [] a = "new-bad"       -> Panic(st, "other")
          [] a = "timeout"       -> Publish(st, "reply", "pre")
          [] a = "timeout-neg"   -> Panic(st, "other")
-         [] a = "status"        -> IF ~sc.http \/ st.replied THEN Panic(st, "other") ELSE [st EXCEPT !.status = TRUE]
-         [] a = "header"        -> IF ~sc.http \/ st.replied THEN Panic(st, "other") ELSE [st EXCEPT !.hdr = TRUE]
+         [] a \in {"status", "status-redirect", "status-error"} -> IF ~sc.http \/ st.replied THEN Panic(st, "other") ELSE [st EXCEPT !.status = TRUE]
+         [] a \in {"header", "header-location"} -> IF ~sc.http \/ st.replied THEN Panic(st, "other") ELSE [st EXCEPT !.hdr = TRUE]
+         \* an event value that cannot be marshalled: applied, not published (logged), listeners still told
+         [] a = "ev-custom-bad" -> EmitUnpublished(sc, st, "custom", "absent")
+         [] a = "ev-change-bad" -> IF sc.rt = "collection" THEN Panic(st, "other") ELSE EmitUnpublished(sc, st, "change", sc.ap.change)
+         [] a = "ev-add-bad"    -> IF sc.rt = "model" THEN Panic(st, "other") ELSE EmitUnpublished(sc, st, "add", sc.ap.add)
          [] a = "tokenevent"    -> Publish(st, "token", "token")
          [] a = "ev-custom"     -> Emit(sc, st, "custom", "absent")
          [] a = "ev-reserved"   -> Panic(st, "other")
@@ -120,7 +133,7 @@ Do(sc, st0, a) ==
          [] a = "ev-remove-neg" -> Panic(st, "other")
          [] a = "ev-create"     -> Emit(sc, st, "create", sc.ap.create)
          [] a = "ev-delete"     -> Emit(sc, st, "delete", sc.ap.delete)
-         [] a = "ev-reaccess"   -> Publish(st, "event", "reaccess")
+         [] a = "ev-reaccess"   -> IF sc.pubfail THEN st ELSE Publish(st, "event", "reaccess")
          [] a = "ev-reset"      -> Publish(st, "reset", "reset")
          [] a = "value"         -> st                       \* nested Value(): runs the get handler in memory, publishes nothing
          [] a = "requirevalue-missing" -> Panic(st, "system.notFound")   \* RequireValue without get handler panics with the *Error
@@ -160,7 +173,7 @@ EventOrder(sc, o) ==
     \A i \in 1..Len(o.log) :
         LET e == o.log[i] IN
         /\ e[1] = "pub" => \A j \in 1..Len(o.log) : (o.log[j][1] = "apply" /\ o.log[j][3] = e[3]) => j < i
-        /\ e[1] = "listen" => \E j \in 1..(i - 1) : o.log[j][1] = "pub" /\ o.log[j][3] = e[3]
+        /\ e[1] = "listen" => \A j \in 1..Len(o.log) : (o.log[j][1] \in {"apply", "pub"} /\ o.log[j][3] = e[3]) => j < i
         /\ e[1] = "listen" => Cardinality({j \in 1..Len(o.log) : o.log[j][1] = "listen" /\ o.log[j][3] = e[3]}) = sc.nl
 \* all messages of one callback appear in program order: the step numbers in the log never decrease
 ProgramOrder(o) == \A i, j \in 1..Len(o.log) : i < j => o.log[i][3] <= o.log[j][3]
